@@ -60,6 +60,11 @@ package oracle
 //@   before[C18.oig2.lists]   SetStakerList requires arg_assetID == genState.StakerListAssets[rangeindex + 1].AssetId && arg_sl == genState.StakerListAssets[rangeindex + 1].StakerList
 //@   before[C18.oig2.infos]   SetStakerInfos requires arg_assetID == genState.StakerInfosAssets[rangeindex + 1].AssetId && arg_stakerInfos == genState.StakerInfosAssets[rangeindex + 1].StakerInfos
 //@   before[C18.oig2.params]  SetParams requires arg_params == genState.Params
+//@   before[C18.oig2.irp]     SetIndexRecentParams requires genState.IndexRecentParams != nil && arg_indexRecentParams == *genState.IndexRecentParams
+//@   before[C18.oig2.irm]     SetIndexRecentMsg requires genState.IndexRecentMsg != nil && arg_indexRecentMsg == *genState.IndexRecentMsg
+//@   before[C18.oig2.vub]     SetValidatorUpdateBlock requires genState.ValidatorUpdateBlock != nil && arg_validatorUpdateBlock == *genState.ValidatorUpdateBlock
+//@   ensures[C18.oig2.singles] (genState.IndexRecentParams != nil ==> defined(res_SetIndexRecentParams_0)) && (genState.IndexRecentMsg != nil ==> defined(res_SetIndexRecentMsg_0)) &&
+//@        (genState.ValidatorUpdateBlock != nil ==> defined(res_SetValidatorUpdateBlock_0))
 //@   ensures[C18.oig2.params] defined(res_SetParams_0)
 //@ loop #1
 //@   invariant true
